@@ -97,7 +97,7 @@ def xor_finding():
 def idem_suite(res, tier, seed):
     rng = random.Random(seed * 17 + 303)
     n = 6000 if tier == "quick" else 100000
-    cases = [parsesuite.gen_case(rng) for _ in range(n)]
+    cases = [parsesuite.gen_case(rng) if i % 3 else parsesuite.gen_union_case(rng) for i in range(n)]
     outs = core.pool_map(run_idem, cases)
     kinds = {}
     for o in outs:
@@ -147,6 +147,10 @@ def main(tier, seed):
     genexec.run_suite(res, tier, seed)
     lax_suite(res, tier, seed)
     idem_suite(res, tier, seed)
+    rng = random.Random(seed * 29 + 5)
+    n = 3000 if tier == "quick" else 60000
+    cases = [parsesuite.gen_case(rng) if i % 2 else parsesuite.gen_union_case(rng) for i in range(n)]
+    parsesuite.run_suite(res, cases, "parse")
     findings.replay_all(res, PID, {"C03-carry": carry_finding, "C03-and-hetero": and_finding, "C03-xor-output": xor_finding})
     return core.finish(res, "make -C coq Props/C03.vo && coqc (Print Assumptions audit)", "see suites", search=None,
                        level_note="lax validators: theorems on the translated source (Gen/Constraints.v). Idempotence of "
